@@ -307,6 +307,68 @@ func c08(c *core.Ctx) {
 		}
 	}
 
+	rPC := c.Rule("C08.plancompose", "a plan built from a sub-group's plan uses that sub-plan's hints as the candidate set only when the sub-plan is an OR-union (the hints are then the whole meaning of the sub-group; any other mode has a residual that would never be evaluated once the sub-group is removed from the residual)", 1)
+	{
+		n := 0
+		orUnion := p.Const(pkgGateway, "PlanModeOrUnion")
+		for _, f := range p.FuncsIn(pkgGateway) {
+			if f.Decl.Body == nil {
+				continue
+			}
+			fi := f.Info()
+			// composite literals Plan{... Hints: X.Hints ...} where X is a local of type Plan
+			var fl *core.Flow
+			ast.Inspect(f.Decl.Body, func(x ast.Node) bool {
+				cl, ok := x.(*ast.CompositeLit)
+				if !ok {
+					return true
+				}
+				if tn := namedOf(fi.TypeOf(cl)); tn == nil || tn.Obj().Name() != "Plan" {
+					return true
+				}
+				h := litField(cl, "Hints")
+				sel, isSel := core.Unparen(h).(*ast.SelectorExpr)
+				if h == nil || !isSel {
+					return true
+				}
+				subObj := core.ObjOf(fi, sel.X)
+				if subObj == nil {
+					return true
+				}
+				if tn := namedOf(subObj.Type()); tn == nil || tn.Obj().Name() != "Plan" {
+					return true
+				}
+				n++
+				c.Touch(f)
+				if fl == nil {
+					fl = core.NewFlow(p, fi, f.Decl.Body)
+				}
+				l, located := fl.Locate(cl)
+				okMode := false
+				if located {
+					for _, ft := range fl.FactsAt(l) {
+						be, isB := ft.Expr.(*ast.BinaryExpr)
+						if !isB {
+							continue
+						}
+						ms, isMS := core.Unparen(be.X).(*ast.SelectorExpr)
+						if !isMS || core.ObjOf(fi, ms.X) != subObj || ms.Sel.Name != "Mode" {
+							continue
+						}
+						if core.ObjOf(fi, be.Y) == types.Object(orUnion) && ((be.Op == token.EQL && ft.Truth) || (be.Op == token.NEQ && !ft.Truth)) {
+							okMode = true
+						}
+					}
+				}
+				rPC.Check(okMode, f.Key+":sub-plan-hints", cl.Pos(), "only an OR-union sub-plan is consumed", "the hints of a sub-group's plan are used as the candidate set although the sub-plan may not be an OR-union: its residual (the sub-group's other legs) is dropped together with the sub-group, so the index route streams records the full scan rejects")
+				return true
+			})
+		}
+		if n == 0 {
+			rPC.Ok(pkgGateway+":no-sub-plan-composition", token.NoPos, "no plan is built from a sub-plan's hints")
+		}
+	}
+
 	rG := c.Rule("C08.route", "the index route is entered only under bucketExecPreconditions(indexType, From, Limit) with From/Limit read from the same request, the precondition is true only for From == 0 and Limit == 0 and for index types the candidate sort handles, and on that route candidates outside the requested time index are dropped before the time window and the sort", 4)
 	{
 		info := pre.Info()
